@@ -281,7 +281,11 @@ func Resolve(p *ir.Prog) *Model {
 	m.JM = m.fieldNamed(j, "M", "string")
 	m.JV = m.fieldNamed(j, "V", "string")
 	m.JE = m.fieldNamed(j, "E", "*"+mp+".Error")
-	m.JErr = m.fieldNamed(j, "err", "*"+mp+".Error")
+	// two *Error fields: the wire field E and the deferred validation error (the other one)
+	m.JErr = otherField(j, m.JE, "*"+mp+".Error")
+	if m.JErr == nil {
+		m.JErr = m.fieldNamed(j, "err", "*"+mp+".Error")
+	}
 	m.JBatch = m.field(j, "batch flag", "batch", isType("bool"))
 
 	t := m.Task
@@ -293,10 +297,69 @@ func Resolve(p *ir.Prog) *Model {
 	m.TErr = m.field(t, "error", "err", isType("error"))
 
 	q := m.Request
-	m.QID = m.fieldNamed(q, "id", "encoding/json.RawMessage")
-	m.QParams = m.fieldNamed(q, "params", "encoding/json.RawMessage")
+	// two raw fields, told apart by the exported accessor that reads them
+	m.QID = m.fieldReadBy(q, "(*Request).ID", "encoding/json.RawMessage")
+	m.QParams = m.fieldReadBy(q, "(*Request).HasParams", "encoding/json.RawMessage")
+	if m.QID == nil || m.QParams == nil || m.QID == m.QParams {
+		m.QID = m.fieldNamed(q, "id", "encoding/json.RawMessage")
+		m.QParams = m.fieldNamed(q, "params", "encoding/json.RawMessage")
+	}
 	m.QMethod = m.field(q, "method", "method", isType("string"))
 	return m
+}
+
+// otherField returns the only field of n with the given type other than not.
+func otherField(n *types.Named, not *types.Var, typ string) *types.Var {
+	if n == nil || not == nil {
+		return nil
+	}
+	st, ok := n.Underlying().(*types.Struct)
+	if !ok {
+		return nil
+	}
+	var out *types.Var
+	for i := 0; i < st.NumFields(); i++ {
+		f := st.Field(i)
+		if f != not && typeStr(f.Type()) == typ {
+			if out != nil {
+				return nil
+			}
+			out = f
+		}
+	}
+	return out
+}
+
+// fieldReadBy returns the only field of n with the given type that the named
+// accessor method reads.
+func (m *Model) fieldReadBy(n *types.Named, method, typ string) *types.Var {
+	if n == nil {
+		return nil
+	}
+	f := m.Func(m.Pkg, method)
+	if f == nil {
+		return nil
+	}
+	var out *types.Var
+	many := false
+	ir.Instrs(f, func(ins ssa.Instruction) {
+		fa, ok := ins.(*ssa.FieldAddr)
+		if !ok {
+			return
+		}
+		v := ir.FieldVar(fa)
+		if v == nil || ir.FieldOwner(fa) != n || typeStr(v.Type()) != typ {
+			return
+		}
+		if out != nil && out != v {
+			many = true
+		}
+		out = v
+	})
+	if many {
+		return nil
+	}
+	return out
 }
 
 // fieldNamed resolves a field by name and checks its type (used where several
@@ -474,7 +537,7 @@ func (m *Model) Func(pkg *ssa.Package, name string) *ssa.Function {
 			for i := 0; i < ms.Len(); i++ {
 				if ms.At(i).Obj().Name() == meth {
 					if f := pkg.Prog.MethodValue(ms.At(i)); f != nil && f.Synthetic == "" {
-						return f
+						return ir.Resolve(f)
 					} else if f != nil && f.Synthetic != "" {
 						// wrapper for value-receiver method reached via pointer: unwrap
 						continue
@@ -484,7 +547,11 @@ func (m *Model) Func(pkg *ssa.Package, name string) *ssa.Function {
 		}
 		return nil
 	}
-	return pkg.Func(name)
+	if f := pkg.Func(name); f != nil {
+		// a pure forwarder stands for the function that holds its body
+		return ir.Resolve(f)
+	}
+	return nil
 }
 
 // AnchorNames lists the anchors of the model (its pointer-typed fields); nil
